@@ -19,7 +19,7 @@ pub fn world() -> World {
         assumptions: &[
             "what simulation adds to this property is its history-dependent part: cache hits, evictions and re-encodings on one handler (hook H5 builds the library with a cache of a few KiB); the per-image clauses are checked on every draw as an invariant",
             "sixel semantics as in the DEC manual / 'All about SIXELs': six vertical pixels per data byte (bit 0 on top), '!' repeat, '$' carriage return, '-' next band, '#n;2;r;g;b' defines register n in RGB 0..100, '#n' selects",
-            "pixels are opaque, fully transparent (composited exactly onto the handler background) or partly transparent (judged against linear-light compositing with a tolerance of one 0-100 level)",
+            "pixels are opaque, fully transparent (composited exactly onto the handler background) or partly transparent (composited over the background, then reduced to 0-100; judged against linear-light compositing with a tolerance of one level); the colours that count against the 256 registers are the composited ones",
             "images of at most 40x40 pixels are below the palette sampling threshold",
         ],
         rule: "one run = one handler (drawn background) and a history of 2..12 draws over a pool of 2..5 images (6..40 rows, 1..40 columns; few-colour images, many-colour images, cropped views, equal pixels under different allocations) with a sink that may fail at a drawn byte; non-trivial = an eviction or a re-draw of an image happened; distinct = distinct hash of (image classes, draw order, failure points)",
@@ -220,7 +220,7 @@ struct PoolImage {
 fn gen_image(src: &mut Src, prev: Option<&PoolImage>) -> PoolImage {
     let h = 6 + src.draw(35) as usize;
     let w = 1 + src.draw(40) as usize;
-    let kind = src.draw(7);
+    let kind = src.draw(9);
     let palette: Vec<RGBA> = (0..1 + src.draw(6)).map(|i| RGBA::new((i * 50 + src.draw(40)) as u8, (200 - i * 30) as u8, src.draw(256) as u8, 255)).collect();
     let transparent = src.chance(1, 4);
     // partly transparent pixels: alphas next to the ends and the middle of the range, on
@@ -252,6 +252,38 @@ fn gen_image(src: &mut Src, prev: Option<&PoolImage>) -> PoolImage {
         2 => {
             let data: Vec<RGBA> = (0..h * w).map(|i| many(i / w, i % w)).collect();
             PoolImage { image: Image::from_parts(data.into(), Shape::from(Size::new(h, w))), class: "many-colours", few_colours: h * w <= 256 }
+        }
+        8 => {
+            // neighbouring colours: up to 256 opaque colours one or two 0-100 levels apart
+            let n = *src.pick(&[256usize, 200, 101, 16]);
+            let (h, w) = (18usize, 15 + src.draw(6) as usize);
+            let base = src.draw(40) as usize;
+            let data: Vec<RGBA> = (0..h * w)
+                .map(|i| {
+                    let k = (i * 7 + seed as usize) % n;
+                    let level = |l: usize| ((l.min(100)) as f32 * 2.55).round() as u8;
+                    RGBA::new(level(base + k % 16), level(base + k / 16), 77, 255)
+                })
+                .collect();
+            PoolImage { image: Image::from_parts(data.into(), Shape::from(Size::new(h, w))), class: "neighbouring-colours", few_colours: true }
+        }
+        7 => {
+            // two colours fading out: every alpha from 0 to 255 on each of them gives several
+            // hundred distinct 8-bit colours once composited over the background, but fewer
+            // than 256 at sixel's resolution - the picture must still be exact
+            let (h, w) = (6usize, 86usize);
+            let (first, second) = (palette[0], palette[palette.len() - 1]);
+            let data: Vec<RGBA> = (0..h * w)
+                .map(|i| {
+                    let [red, green, blue, _] = if i < 256 { first.to_rgba() } else { second.to_rgba() };
+                    if i < 512 {
+                        RGBA::new(red, green, blue, (i % 256) as u8)
+                    } else {
+                        RGBA::new(0, 0, 0, 255)
+                    }
+                })
+                .collect();
+            PoolImage { image: Image::from_parts(data.into(), Shape::from(Size::new(h, w))), class: "two-colours-fading-out", few_colours: true }
         }
         6 => {
             // wide and flat: runs of one sixel code longer than 255 columns (a repeat count that
@@ -451,15 +483,24 @@ fn run(ctx: &Ctx, src: &mut Src) -> WorldResult {
                 } else {
                     src.probe("partly-transparent-pixel-judged");
                     let [bred, bgreen, bblue] = background.to_rgb();
-                    // the channels are reduced to sixel's resolution first, then composited
-                    let snap = |v: u8| ((v as f32 / 2.55).round() * 2.55) as u8;
-                    let level = |fg: u8, bg: u8| (exact_over(snap(fg), alpha, bg) / 2.55).round() as u8;
+                    // composited over the background, then reduced to sixel's resolution
+                    let level = |fg: u8, bg: u8| (exact_over(fg, alpha, bg) / 2.55).round() as u8;
                     expect.push((level(red, bred), level(green, bgreen), level(blue, bblue)));
                     tolerant.push(true);
                 }
             }
         }
-        let distinct: std::collections::BTreeSet<(u8, u8, u8)> = expect.iter().copied().collect();
+        // the colours that count against the 256 registers are the ones that are shown:
+        // composited over the background (with the library's own compositing, which stays
+        // within half an 8-bit step of the exact one but may round a boundary case the other
+        // way) and reduced to sixel's resolution
+        let distinct: std::collections::BTreeSet<(u8, u8, u8)> = (0..want_h * want_w)
+            .map(|i| {
+                let px = *item.image.get(Position::new(i / want_w, i % want_w)).unwrap();
+                let [red, green, blue] = if px.to_rgba()[3] < 255 { background.blend_over(px).to_rgb() } else { px.to_rgb() };
+                (scale(red), scale(green), scale(blue))
+            })
+            .collect();
         if distinct.len() <= 256 {
             src.probe("colours-fit-palette");
             for (at, (want, got)) in expect.iter().zip(decoded.pixels.iter()).enumerate() {
@@ -494,8 +535,9 @@ fn run(ctx: &Ctx, src: &mut Src) -> WorldResult {
             src.probe("more-colours-than-registers-judged-against-quantised-image");
             let reduced = Image::from(item.image.view(..want_h, ..).map(|_, color| {
                 let [red, green, blue, alpha] = color.to_rgba();
+                let [red, green, blue] = if alpha < 255 { background.blend_over(*color).to_rgb() } else { [red, green, blue] };
                 let snap = |v: u8| ((v as f32 / 2.55).round() * 2.55) as u8;
-                RGBA::new(snap(red), snap(green), snap(blue), alpha)
+                RGBA::new(snap(red), snap(green), snap(blue), 255)
             }));
             if let Some((palette, indices)) = reduced.quantize(256, true, bg) {
                 for (at, got) in decoded.pixels.iter().enumerate() {
